@@ -95,6 +95,7 @@ fn is_reserved_by_output(s: &str) -> bool {
             | "init"
             | "iota"
             | "len"
+            | "main"
             | "main0"
             | "make"
             | "new"
